@@ -64,7 +64,8 @@ def run_case(case, ctx):
         opts.update(nc=[13, 20, 32][int(rng.integers(0, 3))], shanks=int(rng.integers(0, 3)), interleave=bool(rng.random() < 0.3))
     opts['wmi_only'] = bool(opts['wm'] and rng.random() < 0.25)      # only whitening_mat_inv.npy is shipped
     if case.get('large'):
-        opts.update(ns=[100001, 120000, 150000][case['seed'][1] % 3], n_samples=2000000, features=['sparse', 'dense'][case['seed'][1] % 2],
+        opts.update(ns=[100000, 100001, 50000, 150000][case['seed'][1] % 4],       # also exact multiples of the batch size
+                     n_samples=2000000, features=['sparse', 'dense'][case['seed'][1] % 2],
                     clusters='same', nt=4, nc=6)
     opts.update(dtype_amps=['float64', 'float32'][int(rng.integers(0, 2))],
                 dtype_templates=['float32', 'float32', 'float64'][int(rng.integers(0, 3))],
